@@ -52,6 +52,10 @@ fn real_main(args: &[String]) -> i32 {
                 .min(16)
         });
     match cmd {
+        "gen-collisions" => {
+            rl2tp_dst::collisions::generate();
+            0
+        }
         "check" => {
             let id = match args.get(1) {
                 Some(i) => i,
